@@ -3,6 +3,7 @@
 From Coq Require Import List NArith Bool.
 From Coq.Strings Require Import Byte.
 From EV Require Import Base.Bytes Base.Codec Model.Tx Model.Block Model.Ids Proofs.Ids.
+From EV Require Gen.SrcPreds Proofs.SrcPreds.
 Import ListNotations.
 Open Scope N_scope.
 
@@ -29,6 +30,10 @@ Proof. exact (nonwitness_commits H pt_ok maxvec cap_txin cap_txout cap_vecu8). Q
 Theorem C02_wtxid_eq_txid : forall t, wf TX t = true ->
   (has_witness t = false -> wtxid t = txid t) /\ (wtxid t = txid t -> has_witness t = false \/ Collision).
 Proof. exact (wtxid_eq_txid H pt_ok maxvec cap_txin cap_txout cap_vecu8). Qed.
+(* the same with Transaction::has_witness AS TRANSLATED FROM THE SOURCE on every run (Gen/SrcPreds.v) *)
+Theorem C02_wtxid_eq_txid_src : forall t, wf TX t = true ->
+  (SrcPreds.src_Transaction_has_witness t = false -> wtxid t = txid t) /\ (wtxid t = txid t -> SrcPreds.src_Transaction_has_witness t = false \/ Collision).
+Proof. intros t W. rewrite SrcPreds.src_has_witness. now apply C02_wtxid_eq_txid. Qed.
 
 (* block hash: the pre-image is the header serialization without the solution / signblock witness *)
 Theorem C02_blockhash_preimage : forall h, h_version h < 2147483648 ->
